@@ -105,6 +105,17 @@ pub struct Case {
     /// counterparty output carries (almost) the whole channel value
     #[serde(default)]
     pub cp_takes_holder_share: bool,
+    /// with htlc_in_holder: holder commitment 1 is first validated in a version *without* the
+    /// HTLC and then replaced by the version with it before commitment 0 is revoked (the later
+    /// validation is the one that counts)
+    #[serde(default)]
+    pub holder_replaced: bool,
+    /// Some((i, d)): wire group: the channel is opened through the protocol handlers with an
+    /// allowlisted upfront shutdown script (and local_shutdown_wallet_index = Some(3) if i is
+    /// odd), commitments 0 are exchanged over the wire and SignMutualCloseTx2 pays the holder to
+    /// the upfront script (d = 0), another allowlisted script (1) or a wallet address (2)
+    #[serde(default)]
+    pub wire: Option<(u8, u8)>,
 }
 
 fn delta_strat() -> impl Strategy<Value = Delta> {
@@ -144,6 +155,85 @@ fn path_of(idx: u32) -> DerivationPath {
     vec![ChildNumber::from_normal_idx(idx).unwrap()].into()
 }
 
+impl C07 {
+    /// Wire group: upfront shutdown script conveyed by SetupChannel, close through SignMutualCloseTx2.
+    fn run_wire(&self, case: &Case, idx_sel: u8, dest_sel: u8, st: &mut CaseStats, ctx: &Ctx) -> Result<(), Violation> {
+        use crate::props::proto::{validate_msg, Negotiation, ProtoWorld, To};
+        use vls_protocol::model::PubKey;
+        use vls_protocol::msgs::{self, Message};
+        use vls_protocol::serde_bolt::{Array, ArrayBE, Octets};
+        let net = Network::Testnet;
+        let mut pw = ProtoWorld::new(WorldCfg::default_testnet(), 6, Negotiation::SignerCap);
+        let secp = pw.secp.clone();
+        let mk = |b: u8| Address::p2wpkh(&CompressedPublicKey(bitcoin::secp256k1::PublicKey::from_secret_key(&secp, &bitcoin::secp256k1::SecretKey::from_slice(&[b; 32]).unwrap())), net);
+        let (x, y) = (mk(9), mk(10));
+        pw.node().add_allowlist(&[format!("address:{}", x), format!("address:{}", y)]).expect("allowlist");
+        let wallet = Wallet { xpub: pw.node().get_account_extended_pubkey(), network: net };
+        let mut spec = ChanSpec::basic(1);
+        spec.anchors = case.anchors;
+        spec.outbound = true;
+        spec.value_sat = VALUE;
+        spec.push_msat = BASE_CP * 1000;
+        let ci = match pw.new_stub(&spec) {
+            Out::Ok(i) => i,
+            _ => return Ok(()),
+        };
+        pw.chans[ci].setup.holder_shutdown_script = Some(x.script_pubkey());
+        pw.shutdown_wallet_index = if idx_sel % 2 == 1 { Some(3) } else { None };
+        pw.check_setup = false;
+        let r = pw.setup_chan(ci);
+        st.class(format!("wire:setup(idx {}):{}", idx_sel % 2, r.tag()));
+        if !r.is_ok() {
+            return Ok(());
+        }
+        // commitments 0 over the wire
+        let h0 = finish_content(case.anchors, VALUE, 1000, BASE_CP, vec![], vec![]);
+        let signed = pw.chans[ci].cp_sign_holder(&secp, 0, &h0, SigKind::Valid);
+        let vm = validate_msg(&pw.chans[ci], &secp, 0, &h0, &signed, false);
+        let r1 = pw.request(To::Chan(ci), vm);
+        let p0 = pw.chans[ci].cp.point(&secp, 0);
+        let r2 = pw.request(To::Chan(ci), Message::SignRemoteCommitmentTx2(msgs::SignRemoteCommitmentTx2 {
+            remote_per_commitment_point: PubKey(p0.serialize()),
+            commitment_number: 0,
+            feerate: h0.feerate,
+            to_local_value_sat: h0.to_holder,
+            to_remote_value_sat: h0.to_cp,
+            htlcs: Array(vec![]),
+        }));
+        if !r1.is_ok() || !r2.is_ok() {
+            st.class(format!("wire:commitments-refused:{}:{}", r1.tag(), r2.tag()));
+            return Ok(());
+        }
+        // the close proposal
+        let (dest, hint, dname): (ScriptBuf, Vec<u32>, &str) = match dest_sel % 3 {
+            0 => (x.script_pubkey(), vec![], "upfront"),
+            1 => (y.script_pubkey(), vec![], "other-allowlisted"),
+            _ => (wallet.scripts(&secp, 3)[0].clone(), vec![3], "wallet"),
+        };
+        let cp_script = Address::p2wpkh(&CompressedPublicKey(bitcoin::secp256k1::PublicKey::from_secret_key(&secp, &bitcoin::secp256k1::SecretKey::from_slice(&[0x33; 32]).unwrap())), net).script_pubkey();
+        let weight = ClosingTransaction::new(1_000_000, 1_000_000, dest.clone(), cp_script.clone(), pw.chans[ci].setup.funding_outpoint).trust().built_transaction().weight().to_wu() + 222;
+        let fee = 2000 * weight / 1000;
+        let (to_h, to_c) = (VALUE - BASE_CP - fee, BASE_CP);
+        let rep = pw.request(To::Chan(ci), Message::SignMutualCloseTx2(msgs::SignMutualCloseTx2 {
+            to_local_value_sat: to_h,
+            to_remote_value_sat: to_c,
+            local_script: Octets(dest.as_bytes().to_vec()),
+            remote_script: Octets(cp_script.as_bytes().to_vec()),
+            local_wallet_path_hint: ArrayBE(hint),
+        }));
+        st.class(format!("wire:close-to-{}:{}", dname, rep.tag()));
+        st.sample = Some(json!({"case": case, "wire": [idx_sel, dest_sel], "result": rep.tag(), "err": rep.err_msg()}));
+        if rep.is_ok() && dest_sel % 3 != 0 {
+            return ctx.report(st, Violation::new(
+                "C07:wire:accepted-bad-close:holder-destination-differs-from-upfront-script",
+                format!("channel opened over the wire with upfront shutdown script {} (wallet index {:?}); a close paying the holder to {} ({}) was signed", x, pw.shutdown_wallet_index, dest, dname),
+            ));
+        }
+        st.nontrivial_shape(("wire", idx_sel % 2, dest_sel % 3, rep.is_ok(), case.anchors));
+        Ok(())
+    }
+}
+
 impl Prop for C07 {
     type Case = Case;
     fn id(&self) -> &'static str {
@@ -180,16 +270,19 @@ impl Prop for C07 {
             (any::<bool>(), any::<bool>(), prop_oneof![3 => Just(Upfront::None), 1 => Just(Upfront::Wallet), 1 => Just(Upfront::Allowlisted)], delta_strat(), any::<bool>()),
             (prop::bool::weighted(0.12), prop::bool::weighted(0.12), prop::bool::weighted(0.04), prop::bool::weighted(0.04), prop::bool::weighted(0.2)),
             (any::<bool>(), kind_strat(), prop::bool::weighted(0.8), delta_strat(), any::<bool>()),
-            (prop_oneof![1 => Just(RateSel::MinMinus3), 2 => Just(RateSel::Min), 5 => Just(RateSel::Mid), 2 => Just(RateSel::Max), 1 => Just(RateSel::MaxPlus3), 1 => Just(RateSel::Zero)], any::<bool>(), prop::bool::weighted(0.08), prop::bool::weighted(0.1), prop::bool::weighted(0.12)),
+            (prop_oneof![1 => Just(RateSel::MinMinus3), 2 => Just(RateSel::Min), 5 => Just(RateSel::Mid), 2 => Just(RateSel::Max), 1 => Just(RateSel::MaxPlus3), 1 => Just(RateSel::Zero)], any::<bool>(), prop::bool::weighted(0.08), prop::bool::weighted(0.1), prop::bool::weighted(0.12), prop::bool::weighted(0.4), prop_oneof![12 => Just(None), 1 => (0u8..2, 0u8..3).prop_map(Some)]),
         )
-            .prop_map(|((anchors, outbound, upfront, view_delta, view_delta_neg), (htlc_in_holder, htlc_in_cp, mh, mc, remove_allowlisted), (phase1, holder_script, hseu, prop_delta, prop_delta_neg), (rate, holder_first, extra_output, cp_zero, cp_takes_holder_share))| Case {
+            .prop_map(|((anchors, outbound, upfront, view_delta, view_delta_neg), (htlc_in_holder, htlc_in_cp, mh, mc, remove_allowlisted), (phase1, holder_script, hseu, prop_delta, prop_delta_neg), (rate, holder_first, extra_output, cp_zero, cp_takes_holder_share, holder_replaced, wire))| Case {
                 anchors, outbound, upfront, view_delta, view_delta_neg, htlc_in_holder, htlc_in_cp, missing_holder_commitment: mh, missing_cp_commitment: mc, remove_allowlisted,
-                phase1, holder_script, holder_script_equals_upfront: hseu, prop_delta, prop_delta_neg, rate, holder_first, extra_output, cp_zero, cp_takes_holder_share,
+                phase1, holder_script, holder_script_equals_upfront: hseu, prop_delta, prop_delta_neg, rate, holder_first, extra_output, cp_zero, cp_takes_holder_share, holder_replaced, wire,
             })
             .boxed()
     }
 
     fn run(&self, case: &Case, st: &mut CaseStats, ctx: &Ctx) -> Result<(), Violation> {
+        if let Some((idx_sel, dest_sel)) = case.wire {
+            return self.run_wire(case, idx_sel, dest_sel, st, ctx);
+        }
         let mut w = World::new(WorldCfg::default_testnet());
         let secp = w.secp.clone();
         let net = Network::Testnet;
@@ -250,6 +343,13 @@ impl Prop for C07 {
             holder_cur = Some(h0.clone());
             if case.htlc_in_holder {
                 let h1 = finish_content(case.anchors, VALUE, 1000, BASE_CP - 50_000, vec![], vec![Htlc { h: 2, sat: 50_000, cltv: 1000 }]);
+                if case.holder_replaced {
+                    // an earlier version of commitment 1 (no HTLC, slightly other fee rate), replaced below
+                    let h1a = finish_content(case.anchors, VALUE, 1100, BASE_CP, vec![], vec![]);
+                    let sa = w.chans[ci].cp_sign_holder(&secp, 1, &h1a, SigKind::Valid);
+                    let ra = w.with_chan(ci, |ch| ch.validate_holder_commitment_tx_phase2(1, h1a.feerate, h1a.to_holder, h1a.to_cp, vec![], vec![], &sa.commit_sig, &sa.htlc_sigs));
+                    st.class(format!("holder-commitment-replaced:first-version:{}", ra.tag()));
+                }
                 let s = w.chans[ci].cp_sign_holder(&secp, 1, &h1, SigKind::Valid);
                 let (o, r) = (to_info2(&h1.offered), to_info2(&h1.received));
                 let r = w.with_chan(ci, |ch| {
